@@ -73,3 +73,12 @@ chk("C06", "exploration",
     "Exhaustive inside a stated scope: 79 hand-built wire token spellings (including forms this encoder never emits: long-form small integers, single-character and empty strings in long form, references to strings / bytes / lists / field names, objects with extra, missing and reordered fields, maps standing for objects) x 62 destination types x 7 container positions x {simple, reference}; oracles: position independence (differential), exact-or-error for the cells of the conversion table with defined semantics, no panic.",
     "The exact-or-error table is deliberately small; undefined cells are only subject to position independence and no-panic. The lenient numeric narrowing of the decoder is recorded as known findings (asserted by the repository's own tests).",
     "bounded-exhaustive enumeration of token x destination x position against a differential oracle and a conversion table", "DESIGN.md 3 C06", "enum")
+
+chk("C04", "exploration",
+    "Exhaustive inside a stated scope: every string over a 37-symbol alphabet drawn from the decoder's switch labels up to length 3 (thorough 4); every truncation, deletion, substitution and insertion from that alphabet of 320 valid corpus streams; grammar-aware replacement of every count / length / index field by boundary numbers; nesting bombs; x 25 destinations x {reader, coder, marshal/formatter} x {simple, ref}, plus service request decoding (Service.Handle) and client response decoding; oracles: no panic, no process death (crash-isolating workers), no out-of-bounds write (guard areas), reads past EOF and allocation bounded by 1 MiB + 256 x len(input).",
+    "Length-bounded input space; bytes outside the alphabet are represented by two symbols; the allocation / loop bounds are fixed constants, not asymptotic proofs.",
+    "bounded-exhaustive enumeration of byte strings and mutations in crash-isolating workers", "DESIGN.md 3 C04", "enum")
+chk("C05", "exploration",
+    "Environment-answer exploration: corpus streams, two-value sequences, truncations and boundary streams that put every token byte on a 256/512(/1024)-byte buffer boundary x every two-way split, every fixed chunk size, every pattern with <= 1 (thorough 2) deviations ('read #j returns k bytes', k in {0,1,2,3}) x 6 buffer configurations x last-chunk-with-EOF; oracle: values (canonical form), error presence and remaining bytes identical to decoding the same bytes from a contiguous slice; no panic.",
+    "The reader's answers are the only nondeterminism and are enumerated; after an error on both sides only error presence is compared.",
+    "exhaustive enumeration of fragmentation patterns (environment answers) against the in-memory decode", "DESIGN.md 3 C05", "enum")
